@@ -174,8 +174,15 @@ pub fn run<P: Prop>(p: &P, opts: &Opts) -> i32 {
     // in-process have no other defence against a change that makes it loop forever
     let _watchdog = stall_watchdog(id);
     let phase = InFlight::enter(&"oracle self-test");
+    // a self-test that fails because the *compiler* no longer accepts a designed base input ("COMPILER:" prefix) is an
+    // observation about the subject, not a defect of the machinery: the run goes on and ends with a violation
+    let mut base_failure: Option<String> = None;
     let selftests = match p.selftest() {
         Ok(n) => n,
+        Err(e) if e.starts_with("COMPILER:") => {
+            base_failure = Some(e);
+            0
+        }
         Err(e) => {
             eprintln!("MACHINERY: oracle self-test failed for {id}: {e}");
             return 2;
@@ -300,6 +307,15 @@ pub fn run<P: Prop>(p: &P, opts: &Opts) -> i32 {
     if violations.len() > 40 {
         println!("... {} more distinct violation keys (replays written)", violations.len() - 40);
     }
+    if let Some(e) = &base_failure {
+        let _ = std::fs::create_dir_all(&replay_dir);
+        let path = format!("{replay_dir}/base-input.json");
+        let doc = json!({"property": id, "key": "base|designed-input-not-compiled-cleanly", "detail": e});
+        let _ = std::fs::write(&path, serde_json::to_string_pretty(&doc).unwrap());
+        println!("VIOLATION property={id} replay={path}");
+        println!("  key: base|designed-input-not-compiled-cleanly");
+        println!("  detail: {}", e.lines().next().unwrap_or(""));
+    }
     // samples: rotate by seed
     let mut samples = vec![];
     if n > 0 {
@@ -365,7 +381,7 @@ pub fn run<P: Prop>(p: &P, opts: &Opts) -> i32 {
         eprintln!("MACHINERY: empty space");
         return 2;
     }
-    if violations.is_empty() {
+    if violations.is_empty() && base_failure.is_none() {
         0
     } else {
         1
